@@ -29,7 +29,7 @@ def run(pid, tier):
             print("MODEL FAILURE / property violated: Invoke.tla ChildSteps=%d" % n)
             sys.exit(2)
         mc.append({"child_steps": n, "distinct": p["distinct"], "generated": p["states"]})
-    nruns = 24 if tier == "quick" else 360
+    nruns = 32 if tier == "quick" else 480      # multiples of the 16 scenario combinations
     jobs = []
     for i in range(NCPU):
         tr = os.path.join(wd, "inv%02d.ndjson" % i)
@@ -42,10 +42,12 @@ def run(pid, tier):
             sys.exit(2)
 
     def judge(paths):
-        outs = run_parallel([tlc_cmd("Trace_Invoke.tla", "Trace_Invoke.cfg", os.path.join(wd, "meta%02d" % i)) for i in range(len(paths))],
-                            env=[{"TRACE": p_} for p_ in paths], timeout=1800)
+        # every trace is judged twice: runs of scenario "one" by Trace_Invoke, runs of scenario "all" (session end) by Trace_InvokeAll
+        mods = ["Trace_Invoke", "Trace_InvokeAll"]
+        outs = run_parallel([tlc_cmd(m + ".tla", m + ".cfg", os.path.join(wd, "meta%s%02d" % (m, i))) for m in mods for i in range(len(paths))],
+                            env=[{"TRACE": p_} for m in mods for p_ in paths], timeout=1800)
         vs, st = [], 0
-        for (rc, out), p_ in zip(outs, paths):
+        for (rc, out), p_ in zip(outs, paths + paths):
             p = parse_tlc(out)
             if not p["ok"] or p["error"]:
                 print(out[-2000:])
